@@ -81,7 +81,7 @@ theorem translated_sim : SimOK machineT machine SimM where
     simp only [machineT] at he hl
     obtain ⟨em, hem⟩ := Option.isSome_iff_exists.1 he
     obtain ⟨li, hli⟩ := Option.isSome_iff_exists.1 hl
-    rw [tie_disconnectT m e g l x em li hem hli]
+    rw [tie_disconnectT m e g l x em li hem hli (lkeys_of_sim hs)]
     exact ⟨rfl, hK, _, Ks, sim_disconnect e g l x hs he hl, hm⟩
   delL := by
     intro m m' K l h hl
